@@ -15,7 +15,26 @@ const P: &str = "C10";
 pub fn gen(seed: u64, tier: Tier) -> ScenarioSpec {
     let mut rng = Rng::new(seed);
     let cfg = GenCfg { allow_large: tier == Tier::Thorough, force_end: true, ..Default::default() };
-    let rec = gen::gen_recorder(&mut rng, &cfg);
+    // rare: a replay beyond 2^31 (or close to 2^32) bytes — the raw length is an unsigned 32-bit number.
+    // Its bulk is a run of 65535-byte events of a code the library does not know, generated on the fly.
+    let sparse = rng.chance(1, if tier == Tier::Thorough { 6000 } else { 2500 });
+    let cfg = if sparse { GenCfg { size: Some(gen::SizeClass::Tiny), force_end: true, ..Default::default() } } else { cfg };
+    let mut rec = gen::gen_recorder(&mut rng, &cfg);
+    let mut sparse_knobs: Vec<(&str, i64)> = vec![];
+    if sparse {
+        let code = 0x60 + rng.below(0x40) as u8;
+        rec.extras = Extras::default();
+        rec.extras.phantom = vec![(code, 65535)];
+        rec.irregular = Irregular::default();
+        if let Some(g) = rec.gecko.as_mut() {
+            g.len = g.len.min(3000);
+        }
+        sparse_knobs.push(("sparse_code", code as i64));
+        // 32768 x 65536 = 2^31; 65535 x 65536 = 2^32 - 65536
+        sparse_knobs.push(("sparse_count", *rng.pick(&[32767i64, 32768, 32769, 33000, 40000, 65535, 65535])));
+        sparse_knobs.push(("sparse_sel", rng.below(1 << 30) as i64));
+        sparse_knobs.push(("sparse_chunk", *rng.pick(&[0i64, 0, 1 << 16, 8192 + 7, 1 << 20])));
+    }
     let len = gen::approx_len(&rec);
     let mut spec = gen::base_spec(P, "S5", seed, rec);
     spec.stream = gen::gen_stream(&mut rng, len, true);
@@ -25,7 +44,61 @@ pub fn gen(seed: u64, tier: Tier) -> ScenarioSpec {
     spec.opts = OptsSpec { skip_frames: true, compute_hash: rng.chance(1, 2) };
     spec.compression = *rng.pick(&[Compression::None, Compression::Lz4, Compression::Zstd]);
     spec.knobs.insert("prelude".into(), gen_prelude(&mut rng, &[1, 3, 4, 5], 4));
+    for (k, v) in sparse_knobs {
+        spec.knobs.insert(k.into(), v);
+    }
     spec
+}
+
+/// The > 2 GiB leg: full and skip-frames reads of `head ++ hole ++ tail` against the plain twin.
+fn sparse_leg(spec: &ScenarioSpec, m: &recorder::Model, ctx: &mut Ctx) -> Result<(), Violation> {
+    let code = spec.knob("sparse_code") as u8;
+    if !spec.recorder.extras.phantom.contains(&(code, 65535)) || crate::layout::KNOWN_CODES.contains(&code) {
+        // (a spec the generator never produces; the minimiser may try it)
+        ctx.skip("sparse leg without its payload-table entry");
+        return Ok(());
+    }
+    let mut count = spec.knob("sparse_count").max(1) as u64;
+    // the hole goes in front of one of the events after Game Start (or at the end of the raw element)
+    // — never after Game End: what follows Game End is buffered as a whole by design, and a 2 GiB buffer is
+    // beyond the allocation cap this harness runs under, not a defect)
+    let first_end = m.events.iter().position(|e| matches!(e.what, recorder::What::End { .. })).unwrap_or(m.events.len());
+    let spots: Vec<usize> = m.events.iter().take(first_end + 1).skip(2).map(|e| e.off).collect();
+    if spots.is_empty() {
+        ctx.skip("sparse leg: no place for the hole");
+        return Ok(());
+    }
+    let at = spots[spec.knob("sparse_sel") as usize % spots.len()];
+    let old_raw = (m.raw_end - crate::recorder::HEADER_LEN) as u64;
+    while old_raw + count * 65536 > u32::MAX as u64 {
+        count -= 1;
+    }
+    let mut head = m.bytes[..at].to_vec();
+    head[11..15].copy_from_slice(&((old_raw + count * 65536) as u32).to_be_bytes());
+    let tail = &m.bytes[at..];
+    let chunk = spec.knob("sparse_chunk").max(0) as usize;
+    ctx.probe(if old_raw + count * 65536 >= (1u64 << 32) - 70_000 { "replay within 70 000 bytes of 2^32" } else if count >= 32768 { "replay longer than 2^31 bytes" } else { "replay just below 2^31 bytes" });
+    ctx.fault("sparse_stream_bytes_gib", (count * 65536) >> 30);
+    let plain = expect_ok(P, "slippi::read(plain twin)", read_slp_noopts(&m.bytes, &StreamSpec::default(), &[]).res)?;
+    let (rf, _, _) = read_slp_sparse(&head, tail, count, code, chunk, OptsSpec { skip_frames: false, compute_hash: false });
+    let full = expect_ok(P, "slippi::read(full, > 2 GiB)", rf)?;
+    same_header(&full, &plain).map_err(|(s, msg)| Violation::new(P, "field-mismatch", format!("huge-full-vs-plain {}", s), msg))?;
+    if full.frames.len() != plain.frames.len() {
+        return Err(Violation::new(P, "row-count", "frames.len", format!("{} rows with the run of unknown events, {} without", full.frames.len(), plain.frames.len())));
+    }
+    ctx.checks(2);
+    let (rs, _, seeks) = read_slp_sparse(&head, tail, count, code, chunk, spec.opts);
+    ctx.probe_if(seeks > 0, "seek issued");
+    let skip = match rs {
+        Res::Ok(g) => g,
+        Res::Err(e, _) => return Err(Violation::new(P, "unexpected-err", "slippi::read(skip, > 2 GiB)", crate::report::short(&e, 200))),
+        Res::Caught(c) => return Err(caught_violation(P, "slippi::read(skip, > 2 GiB)", &c)),
+    };
+    same_header(&skip, &full).map_err(|(s, msg)| Violation::new(P, "field-mismatch", format!("huge-skip-vs-full {}", s), msg))?;
+    check_empty_frames(&skip, m).map_err(|(s, msg)| Violation::new(P, "row-count", s, msg))?;
+    ctx.checks(2);
+    ctx.rep.nontrivial = true;
+    Ok(())
 }
 
 /// start / end / metadata equality (bitwise for raw blocks, order-sensitive for metadata)
@@ -78,6 +151,9 @@ pub fn run(spec: &ScenarioSpec, ctx: &mut Ctx) -> Result<(), Violation> {
     ctx.probe(if spec.opts.compute_hash { "skip with hashing (copy path)" } else { "skip without hashing (seek path)" });
     let edges = m.edges();
     prelude(spec.knob("prelude"), spec.seed, &m, ctx);
+    if spec.knob("sparse_count") > 0 {
+        return sparse_leg(spec, &m, ctx);
+    }
     // full read, plain stream
     let full = expect_ok(P, "slippi::read(full)", read_slp_noopts(&m.bytes, &StreamSpec::default(), &edges).res)?;
     // skip read under the scheduled stream
